@@ -608,6 +608,42 @@ def _subst(v, jvar, term, memo):
     return v
 
 
+def suggest_split(lst, pos):
+    """A position computed from the index of the current generic round may cross a run
+    boundary of `lst` in the middle of the loop: if it moves by +-1 per round, ask for the
+    loop's run to be split at the crossing point (Restart with a `splitat` hint)."""
+    from .sym import Restart
+    c = ctx()
+    if not getattr(c, "generic", None) or not getattr(c, "generic_keys", None):
+        return
+    seg, j = c.generic[-1]
+    key = c.generic_keys[-1]
+    if c.hints.get(key, {}).get("splitat") is not None:
+        return
+    pos = pos if z3.is_expr(pos) else zint(pos)
+    a0 = z3.simplify(z3.substitute(pos, (j, z3.IntVal(0))))
+    a1 = z3.simplify(z3.substitute(pos, (j, z3.IntVal(1))))
+    d = z3.simplify(a1 - a0)
+    if not z3.is_int_value(d) or d.as_long() not in (1, -1):
+        return
+    slope = d.as_long()
+    n = zint(seg.length)
+    off = z3.IntVal(0)
+    bounds = []
+    for x in lst:
+        off = off + (zint(x.length) * len(x.items) if isinstance(x, Seg) else 1)
+        bounds.append(z3.simplify(off))
+    for B in bounds[:-1]:
+        below, _ = c.valid(pos < B)
+        above, _ = c.valid(pos >= B)
+        if below or above:
+            continue
+        K = z3.simplify(B - a0 if slope == 1 else a0 - B + 1)   # rounds j < K are on one side
+        # (outside the round's scope assumption 0 <= j < n the split point must be within the run)
+        k_iter = z3.simplify(n - K if seg.rev else K)
+        raise Restart(key, dict(c.hints.get(key, {}), splitat=k_iter))
+
+
 def seg_element(seg: Seg, round_term, k=0):
     """k-th item of round `round_term`"""
     return subst_j(seg.items[k], seg.jvar, round_term if z3.is_expr(round_term) else z3.IntVal(round_term))
@@ -736,7 +772,29 @@ def list_getitem(lst, idx):
             return list(lst)
         raise Unsupported(f"slice {idx} of a list with segments")
     if isinstance(idx, SInt):
-        raise Unsupported("symbolic index into a list")
+        # the position must provably fall into one single-item run: then it denotes that
+        # run's element of round (idx - offset of the run)
+        c = ctx()
+        off = z3.IntVal(0)
+        total = zint(sym_len(lst))
+        pos = idx.t
+        if c.valid(pos < 0)[0]:
+            pos = total + pos
+        elif not c.valid(pos >= 0)[0]:
+            raise Unsupported("symbolic index into a list whose sign is not decided")
+        for x in lst:
+            if isinstance(x, Seg):
+                if len(x.items) == 1:
+                    r = z3.simplify(pos - off)
+                    if c.valid(z3.And(r >= 0, r < zint(x.length)))[0]:
+                        return seg_element(x, r)
+                off = off + zint(x.length) * len(x.items)
+            else:
+                if c.valid(pos == off)[0]:
+                    return x
+                off = off + 1
+        suggest_split(lst, pos)
+        raise Unsupported("symbolic index into a list: the position does not provably fall into one run")
     if not has_seg(lst):
         return lst[idx]
     if isinstance(idx, int):
